@@ -29,7 +29,10 @@ import (
 // `Verify()` will only have data provided by the non-Blank-wrapped source.
 type Blank struct {
 	inner dials.Source
-	mu    sync.Mutex
+	// innerWatching is set once inner's Watch method has been handed the
+	// WatchArgs: from then on the slot belongs to inner.
+	innerWatching bool
+	mu            sync.Mutex
 	// arguments to Watch() so we can use them later, and pass them on if the
 	// new Source is a Watcher.
 	watchCtx context.Context
@@ -100,11 +103,11 @@ func (b *Blank) SetSource(ctx context.Context, s dials.Source) error {
 	b.mu.Lock()
 	defer b.mu.Unlock()
 
-	if b.inner != nil {
-		if _, isWatcher := b.inner.(dials.Watcher); isWatcher {
-			return fmt.Errorf("disallowed attempt to replace Watcher Source: %T",
-				b.inner)
-		}
+	// A Watcher that never got to watch (its first value was refused, or
+	// the context ended first) does not own the slot.
+	if b.inner != nil && b.innerWatching {
+		return fmt.Errorf("disallowed attempt to replace Watcher Source: %T",
+			b.inner)
 	}
 
 	v, err := s.Value(ctx, b.t)
@@ -121,6 +124,7 @@ func (b *Blank) SetSource(ctx context.Context, s dials.Source) error {
 		if wErr != nil {
 			return &wrappedErr{prefix: "call to Watch failed: ", err: wErr}
 		}
+		b.innerWatching = true
 	}
 	return nil
 }
@@ -134,10 +138,8 @@ func (b *Blank) SetSource(ctx context.Context, s dials.Source) error {
 func (b *Blank) Done(ctx context.Context) {
 	b.mu.Lock()
 	defer b.mu.Unlock()
-	switch b.inner.(type) {
-	case dials.Watcher:
+	if b.innerWatching {
 		return
-	default:
 	}
 	if b.wa == nil {
 		return
